@@ -29,7 +29,11 @@ class Conflict:
 
 
 class LenClass:
-    def __init__(self, interp, seeds: Dict[int, tuple] = None):
+    def __init__(self, interp, seeds: Dict[int, tuple] = None, rowwise_select_funcs=()):
+        """rowwise_select_funcs: qualnames of functions in which a 2-D boolean mask selects
+        exactly one element per row (allow-listed idiom; the precondition 'one True per row' is
+        audited on the shipped tables under C18) - there a masked gather keeps the row class"""
+        self.rowwise = set(rowwise_select_funcs)
         self.I = interp
         self.g = interp.g
         self.memo: Dict[int, tuple] = dict(seeds or {})
@@ -160,6 +164,8 @@ class LenClass:
                 return TOP
             if self.is_masklike(idx):
                 ci = self.of(idx)
+                if n.fn is not None and n.fn.qualname in self.rowwise:
+                    return cb if is_def(cb) else ci
                 if is_def(ci) and is_def(cb) and ci != cb:
                     self.conflicts.append(Conflict(n, cb, ci, "boolean mask indexes an array of a different "
                                                                 "event population"))
